@@ -114,7 +114,9 @@ Definition sets (o : obj) (l : list string) (e : expr) : cmd := seq (map (fun f 
 Definition dptrs : list string := ["main"; "coef"; "post"; "upsample"; "cconvert"; "entropy"; "idct"].
 
 Definition reset_marker_reader : cmd :=
-  seq (map (fun f => if String.eqb f "comp_info" then CNull (D "comp_info") else CSet (D f) (EC 0)) reset_marker_reader_fields).
+  seq (map (fun f => if String.eqb f "comp_info" then CNull (D "comp_info")
+                     else if String.eqb f "marker->cur_marker" then CNull (D "marker->cur_marker")
+                     else CSet (D f) (EC 0)) reset_marker_reader_fields).
 Definition reset_input_controller (own_marker_reset : bool) : cmd :=
   seq (map (fun f => if String.eqb f "coef_bits" then CNull (D "coef_bits") else CSet (D f) (EC 0)) reset_input_controller_fields) ;;
   (if reset_input_controller_calls_reset_marker_reader && own_marker_reset then reset_marker_reader else CSkip).
@@ -128,6 +130,8 @@ Definition observe_marker_state : cmd :=
   CObs "unread_marker" (EG (D "unread_marker")) ;;
   CIfNull (D "marker_list") CSkip (CObs "markers_of_an_earlier_stream" (EC 1)) ;;
   CIfNull (D "marker->dummy_methods") CSkip (CObs "dummy_marker_reader_methods" (EC 1)) ;;
+  (* save_marker resumes the item cur_marker points to (an image-pool object) when it is not NULL *)
+  CIfNull (D "marker->cur_marker") CSkip (CDeref (D "marker->cur_marker") ;; CObs "resumed_partial_marker" (EC 1)) ;;
   (* save_marker: the stream carries markers of a type that is being saved *)
   CIf (EA "saves_markers") (CAlloc (D "marker_list")) CSkip.
 (* jcopy_markers_execute / jpeg_read_icc_profile walk the list *)
@@ -182,6 +186,9 @@ Definition read_header (selfc : bool) (own_marker_reset : bool) (faked : bool) :
           (* get_sof may have failed half-way *)
           CSet (D "master->lossless") (EA "lossless") ;; CSet (D "arith_code") (EA "arith") ;;
           CSet (D "progressive_mode") (EA "prog") ;; CSet (D "marker->saw_SOF") (EA "f_sof") ;;
+          (* the error was raised from inside save_marker (e.g. premature end of the stream with stop-on-warning,
+             or out of memory): the partially filled item stays in cur_marker *)
+          CIf (EA "f_inmarker") (CAlloc (D "marker->cur_marker")) CSkip ;;
           CRaise) CSkip ;;
      get_soi ;;
      get_sof ;; (if selfc then define_tables else CSkip) ;; get_sos) ;;
